@@ -124,6 +124,14 @@ CHECKS = {
                   'the enumerated language (no exception, key shape, group by family, distance component, text key order, sorter, relay distance).',
              note=_TB + ' Readings: relays ordered by leg distance; SC/SH/LH and NNNNSC sort with the hurdles.',
              technique='regular-language obligations (z3) generated from the imported patterns/lists + run-time contracts on the enumerated pattern language (bounded)'),
+ 'C12': dict(category='other',
+             text='Symbolic: for disciplines covering every branch and every admissible-text shape (1-3 colon fields, 0-3 decimals, dot/comma/'
+                  'semicolon) with symbolic digits: only the supplied error class escapes; returned text has seconds/minutes below 60; its duration '
+                  'keeps the speed within the documented limits; field marks two decimals below record x ulpc; multi scores < 10000; re-validation '
+                  'returns the text unchanged (z3, float proxy). Bounded: run-time contract on the real function over codes from the whole accepted '
+                  'language x a text grammar x gender x precision x custom error class. One known finding (prec=0 sprint minute text).',
+             note=_TB + ' Text shapes bounded (quick tier trims the longest shapes, thorough runs all); speed limits with 0.01 m/s tolerance.',
+             technique='contract-based deductive verification (symbolic execution on shape-typed texts + float proxy -> LIA/LRA -> z3) + run-time contract stand-in'),
 }
 _NYB = 'check not built yet in this build round (planned, see DESIGN.md §5); no claim is made'
-NOT_APPLICABLE = {p: _NYB for p in ['C12','C16','C18']}
+NOT_APPLICABLE = {p: _NYB for p in ['C16','C18']}
